@@ -14,7 +14,7 @@ guarded = partial(guarded, call_timeout=900)      # DERIVATION
 from .c03 import CLS, isr_models
 
 
-def run_group(chk, variant, K, requests, sizes, seeds, gs):
+def run_group(chk, variant, K, requests, sizes, seeds, gs, adc=()):
     """requests: ("P", order, block, n_particles, subtract_gs) or
                  ("T", order, space, n_create, n_annihilate, subtract_gs)"""
     names = oracle.gs_names(4)
@@ -78,6 +78,49 @@ def run_group(chk, variant, K, requests, sizes, seeds, gs):
         chk.add_event(ev)
         chk.add_sample({"request": what, "n_terms": len(ev["post"]),
                         "models": ev["_sizes"]})
+    # ADC(n) bookkeeping: expectation_value(adc_order) is the sum of the block
+    # contributions through the orders of the ADC(n) truncation: block (I, J)
+    # of classes (cI, cJ) is expanded through order n - (cI - 1) - (cJ - 1)
+    for adc_order, npart, sub in adc:
+        need, missing = [], []
+        for k, rq in todo:
+            if rq[0] == "P" and rq[3] == npart and bool(rq[4]) == bool(sub):
+                bs, ks = rq[2].split(",")
+                if rq[1] <= adc_order - (CLS[bs] - 1) - (CLS[ks] - 1):
+                    need.append((k, rq))
+        have = {(rq[2], rq[1]) for _, rq in need}
+        spaces = sorted({sp for _, rq in need for sp in rq[2].split(",")},
+                        key=lambda sp: CLS[sp])
+        for bs in spaces:
+            for ks in spaces:
+                top = adc_order - (CLS[bs] - 1) - (CLS[ks] - 1)
+                missing += [(f"{bs},{ks}", o) for o in range(top + 1)
+                            if (f"{bs},{ks}", o) not in have]
+        what = (f"Properties({variant}).expectation_value(adc_order="
+                f"{adc_order}, n_particles={npart}, subtract_gs={sub})")
+        if missing:
+            chk.machinery_errors.append(f"{what}: block requests {missing} "
+                                        "are not in the request list")
+            continue
+        res, exc = guarded(prop.expectation_value, adc_order, npart, None, sub)
+        chk.count("derivations")
+        if exc:
+            chk.report_direct(f"prop:{variant}:E:{adc_order}:exception",
+                              f"{what} raised {exc['type']}: {exc['msg']}", exc)
+            continue
+        from sympy import Add
+        ref = Add(*[Symbol(f"Ref{k}") for k, _ in need])
+        try:
+            ev, ctx = build.valpres(ref, Expr(res, real=True).expand(),
+                                    op="valpres",
+                                    key=f"prop:{variant}:E:adc{adc_order}",
+                                    what=what, tgt_syms=[], names=names,
+                                    global_models=refs)
+        except adapter.Unsupported as u:
+            chk.machinery_errors.append(f"{what}: {u}")
+            continue
+        ev["text"]["post"] = ev["text"]["post"][:300]
+        chk.add_event(ev)
     chk.judge_with_header({"op": "globals", "gm": gm}, chk.events[first:])
 
 
@@ -91,11 +134,14 @@ def run(chk):
           ("P", 2, "ph,ph", 1, False), ("T", 1, "pphh", 1, 1, True),
           ("P", 0, "pphh,pphh", 1, True), ("P", 1, "ph,pphh", 1, True),
           ("P", 1, "pphh,ph", 1, True), ("P", 0, "ph,ph", 2, True),
-          ("P", 1, "ph,ph", 2, True)]
+          ("P", 1, "ph,ph", 2, True), ("P", 0, "ph,pphh", 1, True),
+          ("P", 0, "pphh,ph", 1, True)]
     ip = [("T", 0, "h", 0, 1, True), ("T", 1, "h", 0, 1, True),
           ("T", 2, "h", 0, 1, True), ("P", 0, "h,h", 1, True),
           ("P", 2, "h,h", 1, True), ("P", 0, "phh,phh", 1, True),
-          ("P", 1, "h,phh", 1, True), ("T", 1, "phh", 0, 1, True)]
+          ("P", 1, "h,phh", 1, True), ("T", 1, "phh", 0, 1, True),
+          ("P", 1, "h,h", 1, True), ("P", 0, "h,phh", 1, True),
+          ("P", 0, "phh,h", 1, True), ("P", 1, "phh,h", 1, True)]
     ea = [("T", 0, "p", 1, 0, True), ("T", 2, "p", 1, 0, True),
           ("P", 0, "p,p", 1, True), ("P", 2, "p,p", 1, True),
           ("P", 0, "pph,pph", 1, True), ("P", 1, "p,pph", 1, True)]
@@ -108,8 +154,10 @@ def run(chk):
         ea += [("T", 2, "pph", 1, 0, True), ("P", 1, "pph,pph", 1, True),
                ("P", 2, "p,pph", 1, True)]
     K = 2 if quick else 3
-    run_group(chk, "pp", K, pp, [(3, 3), (3, 2), (2, 2)], seeds, gs)
-    run_group(chk, "ip", K, ip, [(3, 3), (3, 2), (2, 2)], seeds, gs)
+    run_group(chk, "pp", K, pp, [(3, 3), (3, 2), (2, 2)], seeds, gs,
+              adc=[(2, 1, True)])
+    run_group(chk, "ip", K, ip, [(3, 3), (3, 2), (2, 2)], seeds, gs,
+              adc=[(2, 1, True)])
     run_group(chk, "ea", K, ea, [(3, 3), (2, 3), (2, 2)], seeds, gs)
     return chk.finish(
         rule="each expec_block_contribution / trans_moment_space request is "
@@ -118,4 +166,6 @@ def run(chk):
              "matrix d of the tensor model) and compares with the order "
              "coefficient of the explicit matrix element between explicitly "
              "constructed intermediate states (spec/Isr.tla) with the "
-             "documented 1/sqrt(n_o! n_v!) normalisation")
+             "documented 1/sqrt(n_o! n_v!) normalisation; "
+             "expectation_value(adc_order) equals the sum of the block "
+             "contributions through the orders of the ADC(n) truncation")
